@@ -244,7 +244,7 @@ fn resources(r: &mut Rng, names: &[String], keys: &[String]) -> Vec<(String, Str
     out
 }
 
-fn case(kind: &str, res: &[(String, String)], def: &str, data: &str) -> String {
+pub fn case(kind: &str, res: &[(String, String)], def: &str, data: &str) -> String {
     let mut f = vec!["S_C09".to_string(), kind.to_string(), res.len().to_string()];
     for (n, b) in res {
         f.push(escape(n));
@@ -422,6 +422,21 @@ pub fn generate(g: &mut Gen, thorough: bool) {
                 g.push(case("default", &res, &format!("gv:ind gv_arg={v}"), &d), "oracle-indirect-values-macro", true);
                 g.push(case("default", &res, "gv:ind", &d), "oracle-indirect-values-macro", true);
             }
+        }
+    }
+    // steps made of modifiers only (nothing to rotate them past): an error, at once
+    for def in [
+        "inv inv", "inv omit_fwd", "omit_fwd omit_inv", "inv inv inv", "addone > inv", "addone < inv", "addone | inv inv | addone", "inv", "omit_inv", "addone | inv",
+        "omit_fwd omit_inv inv | addone", "inv=true inv", "inv inv=true", "addone > omit_fwd inv", "inv inv x=1",
+    ] {
+        let d = data(&mut g.rng, 2);
+        for kind in ["default", "plain"] {
+            g.push(case(kind, &[], def, &d), "oracle-modifier-only-steps", true);
+        }
+        g.push(case("default", &[("m:mods".to_string(), def.to_string())], "addone | m:mods", &d), "oracle-modifier-only-steps", true);
+        g.push(super::op_line("default", &[], &[], def, "apply", "F", &d), "model-modifier-only-steps", true);
+        for f in ["steps", "normalize", "params"] {
+            g.push(format!("TOK\t{}\t{}", f, escape(def)), "tok-modifier-only-steps", true);
         }
     }
     // cyclic parameter references of every length
